@@ -14,6 +14,7 @@ structure Entry where
   code : Bytes
   msg : Bytes
   isCode : Reply.IsCode code
+  codeOk : Reply.codeOk code = true        -- 1xx..5xx: anything else is a bad reply (C17)
   utf8 : Reply.utf8Ok (normCRLF msg) = true
 
 def wire (script : List Entry) : Bytes := script.flatMap fun e => Reply.encode e.code e.msg
@@ -139,7 +140,7 @@ theorem inv_flush (script : List Entry) (extra : Bytes) (fuel : Nat) (s : St) (h
             rw [this] at hdrop; simp at hdrop
           · obtain ⟨hal, hne⟩ := ha
             rw [hdrop, wire_cons, List.append_assoc] at hal
-            obtain ⟨r, hr, hcode, hbody, hleft⟩ := C17.reply_roundtrip e.code e.isCode e.msg e.utf8
+            obtain ⟨r, hr, hcode, hbody, hleft⟩ := C17.reply_roundtrip e.code e.isCode e.codeOk e.msg e.utf8
               (wire tail ++ extra) s.buf s.segs hne hal
             rw [hr]
             simp only
